@@ -171,9 +171,10 @@ def _check_opchains(inp, opmap, qd):
     chains = [OpChain(c['oids'], c['qnums'], c['coeff'], c['istart']) for c in inp['chains']]
     if all(c.coeff == 0 for c in chains):
         return []
-    ref = W.chains_words(chains, L, 0)
+    oid_ident = int(inp.get('oid_identity', 0))
+    ref = W.chains_words(chains, L, oid_ident)
     try:
-        g = OpGraph.from_opchains(chains, L, 0)
+        g = OpGraph.from_opchains(chains, L, oid_ident)
     except Exception as e:
         return [f'from_opchains raised {type(e).__name__}: {e}']
     fails = []
@@ -402,9 +403,10 @@ def check_optrees(inp):
     from refs import words as W
     L = inp['L']
     trees = [OpTree(_tree_from_json(t['root']), t['istart']) for t in inp['trees']]
-    ref = W.trees_words(trees, L, 0)
+    oid_ident = int(inp.get('oid_identity', 0))
+    ref = W.trees_words(trees, L, oid_ident)
     try:
-        g = OpGraph.from_optrees(trees, L, 0)
+        g = OpGraph.from_optrees(trees, L, oid_ident)
     except Exception as e:
         return [f'from_optrees raised {type(e).__name__}: {e}']
     return _graph_checks(g, ref, L)
@@ -1102,6 +1104,22 @@ def check_molecular(inp):
         M = mpo.as_matrix()
         if not close(M, ref, float(np.max(np.abs(ref))) if ref.size else 1.0):
             fails.append('dense matrix differs from the second-quantised operator')
+    else:
+        # beyond dense reach: every column, by sparse propagation of the basis states through the MPO chain
+        from refs import dense as DN
+        nmodes = L if kind == 'spinless' else 2 * L
+        states = Mo.states_up_to(nmodes, nmodes)
+        got = DN.mpo_columns([np.asarray(A_) for A_ in mpo.A], d, states)
+        terms = Mo.molecular_terms(tk.tolist(), vi.tolist()) if kind == 'spinless' else Mo.spin_molecular_terms(tk.tolist(), vi.tolist())
+        refc = Mo.operator_columns(nmodes, terms, states)
+        scale = max(1.0, float(np.max(np.abs(tk))) if tk.size else 1.0, float(np.max(np.abs(vi))) if vi.size else 1.0)
+        bad = 0
+        for st in states:
+            for r in set(got[st]) | set(refc[st]):
+                if abs(complex(got[st].get(r, 0)) - complex(refc[st].get(r, 0))) > 1e-9 * scale * (1 + L ** 4):
+                    bad += 1
+        if bad:
+            fails.append(f'{bad} matrix entries differ from the second-quantised operator (column-wise comparison)')
     for i, A in enumerate(mpo.A):
         fails += qsparse_fail(A, [mpo.qd, -mpo.qd, mpo.qD[i], -mpo.qD[i + 1]], f'A[{i}]')
     if not opt:
@@ -1434,7 +1452,7 @@ def check_graph_alias(inp):
         chains = [OpChain(c['oids'], c['qnums'], c['coeff'], c['istart']) for c in inp['chains']]
         before = [(list(c.oids), list(c.qnums), c.coeff, c.istart) for c in chains]
         try:
-            OpGraph.from_opchains(chains, inp['L'], 0)
+            OpGraph.from_opchains(chains, inp['L'], int(inp.get('oid_identity', 0)))
         except Exception:
             return []
         if before != [(list(c.oids), list(c.qnums), c.coeff, c.istart) for c in chains]:
@@ -1474,7 +1492,7 @@ def check_opchains_c20(inp):
     if nnz == 0:
         return []
     try:
-        g = OpGraph.from_opchains(chains, inp['L'], 0)
+        g = OpGraph.from_opchains(chains, inp['L'], int(inp.get('oid_identity', 0)))
         widths = W.layer_widths(g)
     except Exception:
         return []      # failures of the construction itself belong to C05
